@@ -51,7 +51,6 @@ struct out_line{
 };
 
 
-static int check_for_sequences(struct msa* msa);
 
 static int read_fasta(struct in_buffer* b, struct msa** msa);
 static int read_msf(struct in_buffer* b, struct msa** msa);
@@ -164,29 +163,13 @@ int kalign_read_input(char* infile, struct msa** msa, int quiet)
                 *msa = m;
         }
         /* LOG_MSG("%d " , (*msa)->aligned); */
-        RUN(check_for_sequences(*msa));
+        /* Whether there are enough sequences to align is decided by
+           kalign_run, after all input files have been read. */
         return OK;
 ERROR:
         if(m){
                 kalign_free_msa(m);
         }
-        return FAIL;
-}
-
-int check_for_sequences(struct msa* msa)
-{
-        if(!msa){
-                ERROR_MSG("No sequences were found in the input files or standard input.");
-        }
-        if(msa->numseq < 2){
-                if(msa->numseq == 0){
-                        ERROR_MSG("No sequences were found in the input files or standard input.");
-                }else if (msa->numseq == 1){
-                        ERROR_MSG("Only 1 sequence was found in the input files or standard input");
-                }
-        }
-        return OK;
-ERROR:
         return FAIL;
 }
 
